@@ -72,8 +72,14 @@ var menu = map[string]reqf{
 	"reattach-root":   func(t uint16, b uint32, s string) refcodec.Msg { return rawpeer.Tattach(t, b+10, "") },
 	"xattrwalk":       func(t uint16, b uint32, s string) refcodec.Msg { return rawpeer.Txattrwalk(t, b+3, b+11, "") },
 	"lopen":           func(t uint16, b uint32, s string) refcodec.Msg { return rawpeer.Tlopen(t, b+3, 0) },
-	"clunk-below":     func(t uint16, b uint32, s string) refcodec.Msg { return rawpeer.Tclunk(t, b+12) },
-	"getattr-below":   func(t uint16, b uint32, s string) refcodec.Msg { return rawpeer.Tgetattr(t, b+12) },
+	// one client creates a name while another renames that very name
+	"create-n":      func(t uint16, b uint32, s string) refcodec.Msg { return rawpeer.Tlcreate(t, b+6, "n", 2) },
+	"rename-n":      func(t uint16, b uint32, s string) refcodec.Msg { return rawpeer.Trenameat(t, b+6, "n", b+6, "n2") },
+	"unlink-n":      func(t uint16, b uint32, s string) refcodec.Msg { return rawpeer.Tunlinkat(t, b+6, "n") },
+	"getattr-sub":   func(t uint16, b uint32, s string) refcodec.Msg { return rawpeer.Tgetattr(t, b+6) },
+	"clone-sub":     func(t uint16, b uint32, s string) refcodec.Msg { return rawpeer.Twalk(t, b+6, b+13) },
+	"clunk-below":   func(t uint16, b uint32, s string) refcodec.Msg { return rawpeer.Tclunk(t, b+12) },
+	"getattr-below": func(t uint16, b uint32, s string) refcodec.Msg { return rawpeer.Tgetattr(t, b+12) },
 }
 
 var single = []string{"rename-samedir", "rename-crossdir", "rename-fid", "rename-dir", "rename-top", "unlink", "remove", "create", "mkdir", "walk", "walk2", "clone", "clunk", "clunk-dir", "getattr", "setattr", "read", "write", "attach", "xattrwalk", "lopen", "clunk-below", "getattr-below"}
@@ -205,7 +211,7 @@ func scenario(p params) *fw.Scenario {
 				is = append(is, oracle.LifecycleIssues(fs, true)...)
 			}
 			for _, pr := range fs.Problems {
-				if pr.Kind == "use-after-close" || pr.Kind == "double-close" {
+				if pr.Kind == "use-after-close" || pr.Kind == "double-close" || pr.Kind == "incoherent-path" {
 					is = append(is, fw.Issue{Fingerprint: "backend|" + pr.Kind, Summary: pr.Detail})
 				}
 			}
@@ -252,6 +258,12 @@ func run(ctx *fw.Ctx, rep *fw.Report) {
 	for _, a := range structural {
 		for _, sq := range seqs {
 			all = append(all, params{Clients: [][]string{{a}, sq}, TwoConns: true})
+		}
+	}
+	// a name being created by one client while another renames / unlinks it
+	for _, kill := range []string{"rename-n", "unlink-n"} {
+		for _, after := range []string{"getattr-sub", "clone-sub"} {
+			all = append(all, params{Clients: [][]string{{"create-n", after}, {kill}}, TwoConns: true}, params{Clients: [][]string{{"create-n", after}, {kill}}, TwoConns: false})
 		}
 	}
 	if !ctx.Quick() {
